@@ -116,8 +116,18 @@ def run(ctx, rep):
     first_exit = None
     for b in range(len(s.blocks)):
         t = s.term(b)
-        if t.op == 'br' and len(t.ops) == 3 and 'olderthan' in s.expr(t.ops[0]) and (t.ops[2][1] in ds):
-            first_exit = t
+        if t.op == 'br' and len(t.ops) == 3 and 'olderthan' in s.expr(t.ops[0]):
+            # whatever the spelling (>= 0, !(x < 0), De Morgan with the branches swapped): the edge taken by a given number of days
+            # cannot return, the edge taken by "not given" (-1) can
+            ci = s.inst_of(t.ops[0])
+            k = s.const_of(ci.ops[1]) if ci is not None and ci.op == 'icmp' else None
+            if k is None:
+                continue
+            from .C17 import _icmp
+            e_given = t.ops[2][1] if _icmp(ci.pred, 5, k) else t.ops[1][1]
+            e_unset = t.ops[2][1] if _icmp(ci.pred, -1, k) else t.ops[1][1]
+            if e_given in ds and e_unset not in ds:
+                first_exit = t
     rep.check(first_exit is not None, 'R-C15-4', 'plans bad/new/full reject -o', s.file, s.expr(first_exit.ops[0]) if first_exit else '', function='state_scrub', construct='olderthan validation')
     tls = [i for i in s.all_insts() if i.op == 'store' and s.expr(i.ops[1]).endswith('ps.timelimit') and s.const_of(i.ops[0]) is None]
     qs = list(s.calls('qsort'))
@@ -142,6 +152,14 @@ def quota_rule(P, rep, s, be, nmax=5, rid='R-C15-5'):
     qs = list(s.calls('qsort'))
     if len(qs) != 1:
         raise AnalysisBroken('state_scrub: qsort anchor not found')
+
+    def _stop_outside(ins):
+        # the region ends at the first call that is neither a log line nor a static helper of scrub.c (the derivation of the limits
+        # may live in one)
+        if ins.callee == 'log_tag':
+            return False
+        g_ = P.functions.get(ins.callee_full) if ins.callee_full else None
+        return not (g_ is not None and not g_.decl and g_.internal)
     lay = P.distructs.get('snapraid_plan')
     if not lay:
         raise AnalysisBroken('struct snapraid_plan not found')
@@ -178,7 +196,7 @@ def quota_rule(P, rep, s, be, nmax=5, rid='R-C15-5'):
         for aid_, ty_ in found.items():
             pl_ = probe.local_by_id(s, aid_); probe.mem[(pl_.reg, 0)] = 2
         try:
-            probe.run(s, qs[0].block, stop=lambda ins: ins.callee != 'log_tag', start_idx=qs[0].idx + 1)
+            probe.run(s, qs[0].block, stop=_stop_outside, start_idx=qs[0].idx + 1)
         except region.Stop:
             pass
         for aid, o_, ty in probe.discover:
@@ -205,7 +223,7 @@ def quota_rule(P, rep, s, be, nmax=5, rid='R-C15-5'):
                     if 'state' in off:
                         R.mem[(ps.reg, off['state'])] = region.P_(('state',), 0)
                     try:
-                        R.run(s, qs[0].block, stop=lambda ins: ins.callee != 'log_tag', start_idx=qs[0].idx + 1)
+                        R.run(s, qs[0].block, stop=_stop_outside, start_idx=qs[0].idx + 1)
                         raise AnalysisBroken('state_scrub: the limit derivation region returned')
                     except region.Stop:
                         pass
@@ -323,6 +341,22 @@ def quota_members_rule(P, rep, s, roles, rid='R-C15-5b'):
     exactly the times of the used stripes that are not bad, and an array whose used stripes are all bad is not refused as empty."""
     rep.rule(rid, 'state_scrub: the time list from which the quota is cut holds exactly the used stripes that are not bad (bad ones are scrubbed on top of the quota and cannot occupy it for ever); an all-bad array is not taken for an empty one', 700)
     qs = list(s.calls('qsort'))
+    if not roles or len(qs) != 1:
+        # the roles come from the quota rule; without them identify the list and its length from the qsort call alone
+        if len(qs) != 1:
+            raise AnalysisBroken('state_scrub: qsort anchor not found')
+        def _behind(o):
+            i = s.inst_of(o)
+            while i is not None and i.op in ('load', 'zext', 'sext', 'bitcast', 'trunc'):
+                j = s.inst_of(i.ops[0])
+                if i.op == 'load' and j is not None and j.op == 'alloca':
+                    return j
+                i = j
+            return None
+        am, ac = _behind(qs[0].ops[0]), _behind(qs[0].ops[1])
+        if am is None or ac is None:
+            raise AnalysisBroken('state_scrub: time list / count locals not identified from the qsort call')
+        roles = {'map': am.id, 'count': ac.id}
     a_map = s.insts[roles['map']]
     # the allocation of the list: the call whose result is stored into the list variable
     st0 = None
